@@ -499,6 +499,9 @@ func quoteList(ss []string) string {
 }
 
 func funcKey(f *types.Func) string {
+	if f.Pkg() == nil { // universe scope, e.g. the Error method of the error interface
+		return "builtin." + f.Name()
+	}
 	sig, _ := f.Type().(*types.Signature)
 	if sig != nil && sig.Recv() != nil {
 		t := sig.Recv().Type()
